@@ -317,7 +317,8 @@ class World:
 
     # -- C08 online stability watch
     def _fingerprint(self, e):
-        return (e.event_status, tuple((r.id, r.handler_id, r.status, id(r.result), id(r.error)) for r in e.event_results.values()))
+        # identity AND content of each recorded value: a list / dict result mutated in place keeps its identity
+        return (e.event_status, tuple((r.id, r.handler_id, r.status, id(r.result), id(r.error), str(short(r.result))) for r in e.event_results.values()))
 
     def mark_observed_complete(self, tag, how, at=None):
         if tag in self.observed_complete:
@@ -583,7 +584,20 @@ def make_handler(w: World, hi: int, hspec: dict):
             w.running.pop(me, None)
             w.rec('exit', bus=bus, ev=ev.tag, h=hi, how=how)
 
-    is_async = kind in ('async', 'amethod', 'acmethod', 'abusmeth')
+    is_async = kind in ('async', 'amethod', 'acmethod', 'abusmeth', 'aretry')
+    if kind == 'aretry':
+        # an async handler wrapped in the library's own @retry decorator (README: "Retry decorator ... for handlers")
+        from bubus.helpers import retry
+
+        rspec = hspec.get('retry') or {}
+
+        @retry(wait=rspec.get('wait', 0.05), retries=rspec.get('retries', 2), timeout=rspec.get('timeout', 3600.0))
+        async def rfn(event):
+            return await run_async(event)
+
+        rfn.__name__ = hname
+        rfn.__qualname__ = hname
+        return rfn
     if kind in ('busmeth', 'abusmeth'):
         # a bound method of an EventBus instance that is NOT dispatch (applications subclass the bus and register its own methods)
         import types
